@@ -495,3 +495,47 @@ V("c11-preserving-balanced-partition", "C11", "silent",
 V("c11-preserving-ternary-remainder", "C11", "silent",
   ("src/permanent.cpp", "        int64_t offset_max = (job_idx + 1) * work_batch - 1;\n        if (job_idx == concurrency - 1)\n        {\n            offset_max = idx_max - 1;\n        }\n",
    "        int64_t offset_max = (job_idx == concurrency - 1) ? idx_max - 1 : (job_idx + 1) * work_batch - 1;\n"))
+
+# --- rules added after the seeded round (second batch)
+PREPS2 = "piquasso/instructions/preparations.py"
+RESULT = "piquasso/api/result.py"
+PHAF = "piquasso/_math/hafnian/plain_hafnian.py"
+V("c11f-bound-array-written-in-region", "C11", {"rule": "C11f", "contains": "mean"},
+  (GSS, "    pure_mean = mean + sqrt_cov_1 @ rng.normal(size=2 * d)\n", "    mean[:] = mean + sqrt_cov_1 @ rng.normal(size=2 * d)\n    pure_mean = mean\n"))
+V("c11f-free-variable-written-in-closure", "C11", {"rule": "C11f", "contains": "first_quantized_input"},
+  (PSAMP, "    def _generate_sample_from_seed(seed):\n        rng = np.random.default_rng(seed=seed)\n", "    def _generate_sample_from_seed(seed):\n        rng = np.random.default_rng(seed=seed)\n        first_quantized_input[0] = first_quantized_input[0]\n"))
+V("c11f-preserving-local-work-array", "C11", "silent",
+  (GSS, "    pure_mean = mean + sqrt_cov_1 @ rng.normal(size=2 * d)\n", "    pure_mean = np.copy(mean)\n    pure_mean[:] = pure_mean + sqrt_cov_1 @ rng.normal(size=2 * d)\n"))
+V("c11a-shuffle-seed-not-from-seed-sequence", "C11", {"rule": "C11a", "contains": "unseeded"},
+  (RESULT, "        r = random.Random(self._config.seed_sequence)", "        r = random.Random(len(_samples))"))
+V("c11a-preserving-seed-via-local", "C11", "silent",
+  (RESULT, "        r = random.Random(self._config.seed_sequence)", "        shuffle_seed = self._config.seed_sequence\n        r = random.Random(shuffle_seed)"))
+V("c03c-passive-weights-renormalised", "C03", {"rule": "C03c", "contains": "shots-none-weight"},
+  (PSTEPS, "            Branch(state=None, outcome=outcome, frequency=probability)\n", "            Branch(state=None, outcome=outcome, frequency=probability / sum(probabilities.values()))\n"))
+V("c03c-preserving-renamed-weight", "C03", "silent",
+  (PSTEPS, "            Branch(state=None, outcome=outcome, frequency=probability)\n            for outcome, probability in probabilities.items()", "            Branch(state=None, outcome=outcome, frequency=p)\n            for outcome, p in probabilities.items()"))
+V("c04-shift-unsigned-int", "C04", {"rule": "C04b", "contains": "shift"},
+  ("src/permanent.cpp", "    permanent /= static_cast<T>(ldexp(1.0, sum_rows - 1));", "    permanent /= static_cast<T>(1u << (sum_rows - 1));"))
+V("c04-preserving-shift-64", "C04", "silent",
+  ("src/permanent.cpp", "    permanent /= static_cast<T>(ldexp(1.0, sum_rows - 1));", "    permanent /= static_cast<T>(static_cast<int64_t>(1) << (sum_rows - 1));"))
+V("c04c-unapplied-factor-returned", "C04", {"rule": "C04c", "contains": "returned-factor"},
+  (PHAF, "    if scale_factor < 1e-8:\n        return matrix, 1.0\n", "    if scale_factor < 1e-8:\n        return matrix, scale_factor\n"))
+V("c04c-preserving-renamed-factor", "C04", "silent",
+  (PHAF, "    scale_factor = np.sqrt(scale_factor / 2) / (dim**2)\n\n    matrix *= scale_factor\n\n    return matrix, scale_factor\n", "    factor = np.sqrt(scale_factor / 2) / (dim**2)\n\n    matrix *= factor\n\n    return matrix, factor\n"))
+V("c07-quadratic-phase-doubled", "C07", {"rule": "C07b", "contains": "docstring"},
+  (GATES, "[[1 + s / 2 * 1j]]", "[[1 + s * 1j]]"), (GATES, "[[s / 2 * 1j]]", "[[s * 1j]]"))
+V("c07-quadratic-phase-hbar", "C07", {"rule": "C07a", "contains": "depends-on-hbar"},
+  (GATES, "[[1 + s / 2 * 1j]]", "[[1 + s / config.hbar * 1j]]"), (GATES, "[[s / 2 * 1j]]", "[[s / config.hbar * 1j]]"))
+V("c07-preserving-doc-prefactor-decimal", "C07", "silent",
+  (GATES, "        S_{(c)} = \\frac{1}{2} \\begin{bmatrix}\n        e^{i \\phi_{ext} }", "        S_{(c)} = 0.5 \\begin{bmatrix}\n        e^{i \\phi_{ext} }"))
+V("c18f-unweighted-iteration", "C18", {"rule": "C18f", "contains": "amplitudes-weighted"},
+  (PREPS2, "                coefficient *= other.params[\"coefficient\"]\n", ""))
+V("c18f-preserving-alias-of-map", "C18", "silent",
+  (PREPS2, "            for occupation_numbers, coefficient in other.params[\n                \"fock_amplitude_map\"\n            ].items():\n                coefficient *= other.params[\"coefficient\"]",
+   "            amap = other.params[\"fock_amplitude_map\"]\n            for occupation_numbers, coefficient in amap.items():\n                coefficient *= other.params[\"coefficient\"]"))
+V("c20e-eager-comparators", "C20", {"rule": "C20e", "contains": "lazy"},
+  (EXPR, "            for op_node, right_expr in zip(node.ops, node.comparators):\n                right = self._eval(right_expr, x)\n", "            rights = [self._eval(e, x) for e in node.comparators]\n            for op_node, right in zip(node.ops, rights):\n"))
+V("c20b-base-class-in-whitelist", "C20", {"rule": "C20b", "contains": "not-in-CMPOPS"},
+  (EXPR, "    | set(CMPOPS.keys())\n", "    | set(CMPOPS.keys())\n    | {ast.cmpop}\n"))
+V("c20b-preserving-redundant-whitelist-entry", "C20", "silent",
+  (EXPR, "    | set(CMPOPS.keys())\n", "    | set(CMPOPS.keys())\n    | {ast.Eq}\n"))
